@@ -350,7 +350,7 @@ pub fn check_spans(ctx: &Ctx) {
 pub fn run(ctx: &Ctx) {
     ctx.set_rule("programs from the full generator biased to MAST shape variety plus spans of every length 1..200 with eight immediate placements; an independent walker executes the program structure (root and code block table through public accessors) with the branch/loop decisions read from the stack column of the trace and prescribes the operation per clock: block start, span operations with NOOPs only after a group-final immediate-carrying operation and one per padding group, RESPAN between batches, END, REPEAT, trailing HALT; compared for equality with the opcode columns; END rows carry the address of their block, the group counter is 0 at span ends, in_span only on span operations, last decoder row = program hash; non-trivial = >= 2 blocks and (multi-batch span or entered loop or call); distinct by (block count, shape counters, cycles)");
     check_spans(ctx);
-    ctx.run("programs", ctx.n(6000, 400_000), || vec(any::<u16>(), 20..600), check);
+    ctx.run("programs", ctx.n(6000, 150_000), || vec(any::<u16>(), 20..600), check);
 }
 
 pub fn replay(ctx: &Ctx, v: &serde_json::Value) {
